@@ -404,6 +404,30 @@ pub fn rows_c09(args: &[String]) -> i32 {
             out.put(&json!({"t": "err", "code": c, "msg": bytes_json(m), "ext": bytes_json(ext.unwrap_or(b"")), "text": bytes_json(&text)}));
         }
     }
+    // items longer than 255 characters are sent whole (nothing in the item may be cut)
+    for n in [200usize, 239, 240, 255, 256, 300, 1000] {
+        let ext: Vec<u8> = (0..n).map(|i| b'a' + (i % 26) as u8).collect();
+        let ext: &'static [u8] = Box::leak(ext.into_boxed_slice());
+        for e in [Error::new(ErrorCode::ExecutionError).extended(ext), Error::custom(77, b"Custom description").extended(ext)] {
+            let text = fmt(&e).unwrap_or_default();
+            out.put(&json!({"t": "err", "code": e.get_code(), "msg": bytes_json(e.get_message()), "ext": bytes_json(ext), "text": bytes_json(&text)}));
+        }
+    }
+    // one response unit with 300 separate data() calls (the separator does not depend on how many came before)
+    {
+        use scpi::parser::response::Formatter;
+        let vals: Vec<i32> = (0..300).map(|i| i * 7 - 1000).collect();
+        let mut buf: Vec<u8> = Vec::new();
+        let fin = catch(std::panic::AssertUnwindSafe(|| {
+            let mut u = buf.response_unit().unwrap();
+            for v in &vals {
+                u.data(*v);
+            }
+            u.finish()
+        }));
+        let j: Vec<Value> = vals.iter().map(|v| { let (neg, d) = digits(&format!("{v}")); json!({"neg": neg, "d": d}) }).collect();
+        out.put(&json!({"t": "list", "vals": j, "text": bytes_json(if matches!(fin, Ok(Ok(()))) { &buf } else { b"<failed>" }), "via": "300 data() calls"}));
+    }
     {
         let e = Error::new(ErrorCode::ExecutionError).extended(b"say \"hi\"");
         let text = fmt(&e).unwrap_or_default();
